@@ -34,7 +34,8 @@ type kase struct {
 	// first on the same aligner value (forward then complement is what cmd/pals does), and its hits
 	// are held to the soundness oracle as well; 2 a second Optimise call that is REJECTED (12, 0.5) comes
 	// between BuildIndex and Align (it must leave the accepted settings alone); 3 the hits judged are those
-	// of AlignFrom(Trapezoids(), strand) called after Align on the same aligner
+	// of AlignFrom(Trapezoids(), strand) called after Align on the same aligner; 4 index and settings are taken
+	// over with Share from another aligner (same target, another query) that has searched both strands
 	Order int `json:"order,omitempty"`
 }
 
@@ -244,6 +245,26 @@ func (r *runner) align(k kase, target, query []byte, comp bool) (hits, other dp.
 	}
 	r.m.Clear()
 	p := pals.New(t, q, k.Self, r.m, 0, nil, nil)
+	if k.Order == 4 {
+		// the index and the settings come from ANOTHER aligner over the same target, which has searched both
+		// strands of another query first (how cmd/pals spreads queries over workers)
+		other := linear.NewSeq("o", alphabet.BytesToLetters(background(77, 700)), alphabet.DNA)
+		m := pals.New(t, other, false, r.m, 0, nil, nil)
+		if err := m.Optimise(k.MinLen, k.MinId); err != nil {
+			return nil, nil, fmt.Errorf("Optimise: %v", err)
+		}
+		if err := m.BuildIndex(); err != nil {
+			return nil, nil, fmt.Errorf("BuildIndex: %v", err)
+		}
+		for _, cm := range []bool{false, true} {
+			if _, err := m.Align(cm); err != nil {
+				return nil, nil, err
+			}
+		}
+		p.Share(m)
+		hits, err = p.Align(comp)
+		return hits, nil, err
+	}
 	if err := p.Optimise(k.MinLen, k.MinId); err != nil {
 		return nil, nil, fmt.Errorf("Optimise: %v", err)
 	}
@@ -407,7 +428,7 @@ func check(c *enum.Ctx, r *runner, k kase) {
 
 func run(c *enum.Ctx) {
 	pals.MaxKmerLen = 8
-	c.Rule("fixed backgrounds generated from constants (xorshift with constant seeds; 2 pair backgrounds of 1500/1300 letters, thorough 4 incl. one low-complexity; self: one sequence of 1700); (minHitLen,minId) in {(30,0.9),(50,0.9),(50,0.94),(80,0.85)} as accepted by Optimise with MaxKmerLen lowered to 8; a repeat of length L in {minHitLen+1, +2, +5, +10, 1.5 minHitLen, 3 minHitLen} planted at target positions {0, three interior, end} x 40 consecutive query positions (one full tube period) plus both query ends; variants: exact, a substitution at every third position, 2 and 3 substitutions, a deletion and an insertion of length 1-2 at every tenth position, reverse-complemented copies (complement-strand search), self comparison (also under the permissive settings (80,0.8),(100,0.8),(150,0.85) on sequences of 2000/3500 (5000) letters, where the filter is noisy next to the main diagonal, and at 64 consecutive sequence lengths = every position of the tube grid relative to the main diagonal); a query longer than the target (900 vs 1500) with copies before, around and beyond the length of the target; every reverse-complement case and every exact/sub2/sub3 case again as the second Align call on an aligner value that has already searched the other strand (both result sets judged), after a second, rejected Optimise(12, 0.5), and through AlignFrom(Trapezoids()) after Align (quick: alternating); soundness oracle on EVERY hit of every run; recall oracle for identity >= minId+0.05 and a core (the repeat without edits so close to an end that leaving them out scores at least as well: substitutions with < 5, indels of b with < 3b+2 letters beyond them) longer than minHitLen in both sequences; a hit must overlap half of the core in both; non-trivial = every run (each contains a planted repeat)")
+	c.Rule("fixed backgrounds generated from constants (xorshift with constant seeds; 2 pair backgrounds of 1500/1300 letters, thorough 4 incl. one low-complexity; self: one sequence of 1700); (minHitLen,minId) in {(30,0.9),(50,0.9),(50,0.94),(80,0.85)} as accepted by Optimise with MaxKmerLen lowered to 8; a repeat of length L in {minHitLen+1, +2, +5, +10, 1.5 minHitLen, 3 minHitLen} planted at target positions {0, three interior, end} x 40 consecutive query positions (one full tube period) plus both query ends; variants: exact, a substitution at every third position, 2 and 3 substitutions, a deletion and an insertion of length 1-2 at every tenth position, reverse-complemented copies (complement-strand search), self comparison (also under the permissive settings (80,0.8),(100,0.8),(150,0.85) on sequences of 2000/3500 (5000) letters, where the filter is noisy next to the main diagonal, and at 64 consecutive sequence lengths = every position of the tube grid relative to the main diagonal); targets of 2^k-1, 2^k, 2^k+1 letters (k=11..14) and of 6000, 11000, 20000 letters with a comfortable repeat at the start, near it, in the middle and at the end; a query longer than the target (900 vs 1500) with copies before, around and beyond the length of the target; every reverse-complement case and every exact/sub2/sub3 case again as the second Align call on an aligner value that has already searched the other strand (both result sets judged), after a second, rejected Optimise(12, 0.5), through AlignFrom(Trapezoids()) after Align, and with index and settings taken over by Share from an aligner that searched another query (quick: alternating); soundness oracle on EVERY hit of every run; recall oracle for identity >= minId+0.05 and a core (the repeat without edits so close to an end that leaving them out scores at least as well: substitutions with < 5, indels of b with < 3b+2 letters beyond them) longer than minHitLen in both sequences; a hit must overlap half of the core in both; non-trivial = every run (each contains a planted repeat)")
 	c.Assume("pals.MaxKmerLen is lowered to 8 by the harness (small index)", "identity comfortably above the threshold = at least 0.05 above")
 	work := os.Getenv("VERIF_WORK")
 	if work == "" {
@@ -549,6 +570,20 @@ func run(c *enum.Ctx) {
 			}
 		}
 	}
+	// long targets (the quantifier's 2-20 kb backgrounds; the size ladder of the tube array): 2^k-1, 2^k,
+	// 2^k+1 letters for k = 11..14, and 6000, 11000, 20000; a comfortable repeat at the start, near the start,
+	// in the middle and at the very end of the target
+	for _, lt := range append(enum.Ladder(2047, 16385), 6000, 11000, 20000) {
+		for pi, p := range pss {
+			L := 3 * p.minLen
+			for _, t0 := range []int{0, 97, lt / 2, lt - L} {
+				for _, v := range []string{"exact", "sub3"} {
+					cases = append(cases, kase{BgT: 11, BgQ: 2, LenT: lt, LenQ: lenQ, MinLen: p.minLen, MinId: p.minId, L: L, T0: t0, Q0: 600 + 7*pi, Variant: v})
+				}
+				cases = append(cases, kase{BgT: 11, BgQ: 2, LenT: lt, LenQ: lenQ, MinLen: p.minLen, MinId: p.minId, L: L, T0: t0, Q0: 611, Variant: "exact", Rev: true})
+			}
+		}
+	}
 	// the same searches as the second call on an aligner value that has already searched the other strand
 	for _, k := range cases[:len(cases):len(cases)] {
 		if k.Rev || k.Variant == "exact" || k.Variant == "sub2" || k.Variant == "sub3" {
@@ -564,8 +599,11 @@ func run(c *enum.Ctx) {
 			continue
 		}
 		n23++
-		for _, o := range []int{2, 3} {
-			if c.Quick && n23%2 != o%2 {
+		for _, o := range []int{2, 3, 4} {
+			if c.Quick && n23%3 != o%3 {
+				continue
+			}
+			if o == 4 && k.Self {
 				continue
 			}
 			k.Order = o
